@@ -11,7 +11,7 @@ import family
 from common import Ctx, MachineryError, pmap
 
 JUDGE = ["C18_TargetTouchedLast", "C18_NothingBeside", "C18_FailureAtomic", "C18_Success", "C18_Raises"]
-CONV = {"ok", "raise_before", "raise_after", "ret_list", "ret_none", "ret_str", "ret_missing"}
+CONV = {"ok", "ok_empty", "raise_before", "raise_after", "ret_list", "ret_none", "ret_str", "ret_missing"}
 TARGETS = {"absent", "old", "missingdir"}
 WRITERS = {"rtf", "docx", "html", "pdf"}
 
@@ -162,7 +162,7 @@ def run(pid, tier, seed, replay=None):
             faults = set(first) | set(rng.sample(range(1, rcalls + 1), min(rcalls, 2500)))
         ctx.extra["library_calls_per_export_real_converter"] = rcalls
         base = dict(Writers=WRITERS, Targets0=TARGETS, ConvOutcomes=CONV | {"silent"}, Flavours={"base", "exc"}, HaveLibreOffice=have_lo, FsFaults=set(),
-                    ConverterKinds={"stub", "default", "real", "onpath"}, PriorSet={"none", "export_edit"})
+                    ConverterKinds={"stub", "default", "real", "onpath"}, PriorSet={"none", "export_edit"}, TNameSet={"std", "htm", "noext"})
         # MODEL: every fault point class x converter outcome x target state x writer
         mc = dict(base); mc.update(Faults={1, 2}, EncodeBeforeOpen=True)
         res = family.model_check(ctx, work, "Export", mc, ["AllOrNothing", "TargetOnlyByLastStep", "MalformedRaises"], [], "as-implemented")
